@@ -100,6 +100,8 @@ func (o *obCtx) refutedOn(sp *SeqPath, a, b role, bad token.Token, site *ssa.Cal
 func guardsOf(fn *ssa.Function) []guard { return guardsOfX(fn, false) }
 
 func guardsOfX(fn *ssa.Function, derived bool) []guard {
+	// whoever asks for the guards of fn looks at shared helpers through fn's calls
+	theCtx.curRoot, theCtx.bindParam = fn, nil
 	raw := guardsOfRaw(fn, derived)
 	if os.Getenv("XZV_DEBUG_GUARDS") == fn.Name() {
 		for _, b := range theCtx.GB(fn) {
